@@ -228,6 +228,7 @@ const uiPkg = RepoMod + "/internal/ui"
 func registerIntercepts(e *Engine) {
 	registerZzv(e)
 	registerFiles(e)
+	registerExecModel(e)
 
 	// ---- logging / notifications: no-ops; Fatal panics (pterm's checkFatal) ----
 	for _, n := range []string{"SetDebugEnabled", "Print", "Printf", "Println", "Printfln", "Debug", "Success", "Info", "Warning",
@@ -259,6 +260,30 @@ func registerIntercepts(e *Engine) {
 	})
 	e.reg("errors.Is", func(c *CallCtx, st *State, args []Value) []Outcome {
 		return one(st, c.E.valEq(args[0], args[1]))
+	})
+	// errors.As(err, &target) for a target of concrete pointer type: dynamic type identity
+	// (none of the modelled errors wraps another one)
+	e.reg("errors.As", func(c *CallCtx, st *State, args []Value) []Outcome {
+		err, ok1 := args[0].(Iface)
+		tgt, ok2 := args[1].(Iface)
+		if !ok1 || !ok2 || tgt.T == nil {
+			c.E.abort("errors.As with unsupported arguments")
+		}
+		pt, ok := under(tgt.T).(*types.Pointer)
+		if !ok {
+			c.E.abort("errors.As target is not a pointer")
+		}
+		if err.T == nil {
+			return one(st, smt.False)
+		}
+		if _, isIface := under(pt.Elem()).(*types.Interface); isIface {
+			c.E.abort("errors.As with an interface target is not modelled")
+		}
+		if types.Identical(err.T, pt.Elem()) {
+			st.Store(tgt.V.(Ptr), err.V)
+			return one(st, smt.True)
+		}
+		return one(st, smt.False)
 	})
 	e.reg("os.IsNotExist", func(c *CallCtx, st *State, args []Value) []Outcome {
 		ne := st.Load(c.E.globalPtr(st, c.E.Pkgs["io/fs"].Var("ErrNotExist")))
